@@ -412,7 +412,7 @@ def once_per_iteration(fn, loop, stmt):
 # ---------------------------------------------------------------------------
 # statement inventory: the function contains each documented statement (up to renaming of locals)
 
-def inventory(fn, rule, items, metas, root=None, fixed=None, required=True, ordered_add=False):
+def inventory(fn, rule, items, metas, root=None, fixed=None, required=True, ordered_add=False, rebind_ok=()):
     """items: list of (instance, pattern source[, options]).  Metavariables (names in `metas`) bind
     consistently across all items to the function's local names, so renaming locals or reordering
     independent statements does not matter; changing what a statement computes does.
@@ -422,7 +422,13 @@ def inventory(fn, rule, items, metas, root=None, fixed=None, required=True, orde
     stmts.sort(key=lambda s: (s.lineno, s.col_offset))
     mkN = lambda: sym.Normalizer(ordered_add=ordered_add)
     nfs = [(s, sym.stmt_nf(s, mkN())) for s in stmts]
-    pats = [(it[0], sym.parse_pattern(it[1], mkN()), it[1]) for it in items]
+    seen_inst = {}
+    uniq = []
+    for it in items:
+        k = seen_inst.get(it[0], 0)
+        seen_inst[it[0]] = k + 1
+        uniq.append((it[0] if k == 0 else '%s (%d)' % (it[0], k + 1), it[1]))
+    pats = [(it[0], sym.parse_pattern(it[1], mkN()), it[1]) for it in uniq]
     metas = metas if isinstance(metas, dict) else set(metas)
     best = {'n': -1, 'binding': {}, 'matched': {}}
 
@@ -450,7 +456,10 @@ def inventory(fn, rule, items, metas, root=None, fixed=None, required=True, orde
     if ok:
         for inst, pat, src in pats:
             fn.ob(rule, inst, True, best['matched'][inst], key=inst)
-        return best['binding']
+        _params_not_replaced(fn, rule, best['matched'], rebind_ok)
+        out = dict(best['binding'])
+        out['__matched__'] = dict(best['matched'])
+        return out
     # report: with the best partial binding, which items have no matching statement
     binding = best['binding']
     matched = best['matched']
@@ -472,4 +481,34 @@ def inventory(fn, rule, items, metas, root=None, fixed=None, required=True, orde
             fn.ob(rule, inst, False, near[0] if near else fn.ast,
                   detail='no statement of the documented form `%s`%s' % (
                       src.strip(), ('; nearest: `%s`' % norm_stmt(near[0])) if near else ''), key=inst)
-    return binding
+    out = dict(binding)
+    out['__matched__'] = dict(matched)
+    return out
+
+
+def _params_not_replaced(fn, rule, matched, rebind_ok=()):
+    """An argument mentioned by a documented statement must still hold the caller's value there: the
+    only definitions reaching the statement are the entry and statements that are themselves documented
+    (matched) or listed in rebind_ok."""
+    params = set(fn.params)
+    matched_nodes = set()
+    for st in matched.values():
+        n = fn.cfg.node_containing(st)
+        if n is not None:
+            matched_nodes.add(n.id)
+    reported = set()
+    for inst, st in matched.items():
+        node = fn.cfg.node_containing(st)
+        if node is None:
+            continue
+        roots = [st.test] if isinstance(st, (ast.If, ast.While)) else ([st.iter] if isinstance(st, ast.For) else [st])
+        for root in roots:
+            for x in ast.walk(root):
+                if isinstance(x, ast.Name) and isinstance(x.ctx, ast.Load) and x.id in params and x.id not in rebind_ok:
+                    if fn.cfg.stmt_of(x) is not st and not isinstance(st, (ast.If, ast.While, ast.For)):
+                        continue       # inside a nested function/lambda body: other scope
+                    bad = [d for d in fn.rd.reaching(node, x.id) if d.kind != 'entry' and d.id not in matched_nodes]
+                    if bad and (x.id, bad[0].id) not in reported:
+                        reported.add((x.id, bad[0].id))
+                        fn.ob(rule, 'argument %s still holds the caller\'s value where the documented step uses it' % x.id, False, bad[0].ast,
+                              detail='`%s` replaces %s before: %s' % (norm_stmt(bad[0].ast), x.id, inst), key='param-replaced|' + x.id)
